@@ -8,6 +8,8 @@ matching relation (which chiplet column carries which operand) is taken from the
    U32AND / U32XOR   <-> last row of a bitwise cycle with a = s1, b = s0, z = s0', selector = operation
    MLOADW / MSTOREW  <-> memory row with ctx, addr = s0, clk, word v_i = s'_{3-i}, read / write selector
    MLOAD / MSTORE    <-> memory row with word (s0', h2, h1, h0)
+   RESPAN            <-> hasher row absorbing the next batch (ABP, last row of a hash cycle), addressed by the
+                         next batch's hasher address and not by the decoder row
 z3 decides  matching  =>  request == response, and that rows which are not the last of a bitwise cycle
 respond with 1.  A mismatch of operation labels, operand order or challenge indices makes the bus
 unbalanced for every execution that uses the operation.  Everything else of C12 (multiset equality
@@ -31,41 +33,61 @@ PROP = "C12"
 
 
 class Columns2(Columns):
-    """two independent symbolic row pairs: rows 0/1 (operation, cells c/n) and rows base/base+1 (chiplet, cells q/r)"""
+    """symbolic trace with named row pairs: op_row / op_row+1 (operation, cells c/n) and base / base+1 (chiplet,
+    cells q/r); any other row a piece of code reaches gets its own cells x<row>_<col>, so a request that reads
+    the wrong rows simply fails to match"""
 
-    def __init__(self, it, consts, base, chip_consts):
+    def __init__(self, it, consts, base, chip_consts, op_row=0, next_consts=None):
         super().__init__(it, consts)
-        self.base, self.chip_consts = base, chip_consts
+        self.base, self.chip_consts, self.op_row, self.next_consts = base, chip_consts, op_row, next_consts or {}
 
     def cell(self, col, row):
-        if row in (0, 1):
-            return super().cell(col, row)
+        if row == self.op_row:
+            return super().cell(col, 0)
+        if row == self.op_row + 1:
+            if col in self.next_consts:
+                return F(Lin({}, self.next_consts[col]))
+            return super().cell(col, 1)
         if row == self.base and col in self.chip_consts:
             return F(Lin({}, self.chip_consts[col]))
         if row in (self.base, self.base + 1):
             return F(self.it.ctx.var(("q" if row == self.base else "r") + str(col)))
-        raise Unsupported(f"row {row} of the symbolic trace")
+        return F(self.it.ctx.var(f"x{row}_{col}"))
 
     def column(self, col):
-        rows = {0, 1, self.base, self.base + 1}
-        return [self.cell(col, r) if r in rows else Opaque(f"cell({col},{r})") for r in range(self.base + 2)]
+        hi = max(self.base, self.op_row) + 2
+        named = {self.op_row, self.op_row + 1, self.base, self.base + 1}
+        return _LazyColumn(self, col, hi)
 
 
-def run_pair(interp, op_consts, chip_row, chip_consts):
+class _LazyColumn(list):
+    """column view: cells are created on access (only the rows actually read get variables)"""
+
+    def __init__(self, cm, col, n):
+        super().__init__([None] * n)
+        self.cm, self.col = cm, col
+
+    def __getitem__(self, i):
+        if isinstance(i, int):
+            return self.cm.cell(self.col, i)
+        return super().__getitem__(i)
+
+
+def run_pair(interp, op_consts, chip_row, chip_consts, op_row=0, next_consts=None):
     req = [n for n in interp.fns if n.endswith("::get_requests_at") and "chiplets/aux_trace/mod.rs:7" in n]
     rsp = [n for n in interp.fns if n.endswith("::get_responses_at") and "chiplets/aux_trace/mod.rs:7" in n]
     assert len(req) == 1 and len(rsp) == 1, (req, rsp)
 
     def make_run(it):
         it.begin_run(None)
-        cm = Columns2(it, op_consts, chip_row, chip_consts)
+        cm = Columns2(it, op_consts, chip_row, chip_consts, op_row, next_consts)
         mt = Struct()
         mt[0] = cm
         alphas = [F(it.ctx.var(f"al{i}")) for i in range(16)]
         it.info["alphas"] = alphas
 
         def thunk():
-            a = it.run_fn(it.fns[req[0]].parsed(), [Opaque("builder"), Ref({"m": mt}, "m"), alphas, I(0, "usize")])
+            a = it.run_fn(it.fns[req[0]].parsed(), [Opaque("builder"), Ref({"m": mt}, "m"), alphas, I(op_row, "usize")])
             b = it.run_fn(it.fns[rsp[0]].parsed(), [Opaque("builder"), Ref({"m": mt}, "m"), alphas, I(chip_row, "usize")])
             return [a, b]
         return thunk
@@ -95,12 +117,18 @@ def main():
     for opname, is_read, m in (("MLoadW", 1, memw), ("MStoreW", 0, memw), ("MLoad", 1, meme), ("MStore", 0, meme)):
         cases.append(dict(op=opname, chip_row=5, chip={ch: 1, ch + 1: 1, ch + 2: 0, ch + 3: is_read}, what=f"memory chiplet row, {'read' if is_read else 'write'} selector", match=m))
         cases.append(dict(op=opname, chip_row=5, chip={ch: 1, ch + 1: 1, ch + 2: 0, ch + 3: 1 - is_read}, what="memory chiplet row with the other access kind", expect_diff=True, match=m))
+    # RESPAN (decoder row 40) <-> hasher row 15 absorbing the next batch (ABP selectors, last row of a cycle):
+    # the next batch lives at hasher address 17 (1-based), i.e. the absorption is between hasher rows 15 and 16
+    HS, HST, HIDX = c["HASHER_SELECTORS"], c["HASHER_STATE_COLS"], c["HASHER_NODE_INDEX"]
+    DEC = c["DECODER"]
+    cases.append(dict(op="Respan", chip_row=15, op_row=40, next_consts={DEC: 17}, chip={ch: 0, HS: 1, HS + 1: 0, HS + 2: 0},
+                      what="hasher row absorbing the next operation batch (ABP)", match=lambda cur, nxt, q: [(q(HIDX), Lin({}, 0))]))
     for case in cases:
         opcode = meta.ops[case["op"]]["opcode"]
         op_consts = {int(k): v for k, v in meta.opcode_consts(opcode).items()}
         tag = f"bus:{case['op']} <-> {case['what']}"
         try:
-            paths = run_pair(interp, op_consts, case["chip_row"], case["chip"])
+            paths = run_pair(interp, op_consts, case["chip_row"], case["chip"], case.get("op_row", 0), case.get("next_consts"))
         except Unsupported as e:
             V.add(tag, "inconclusive", detail=str(e)[:300])
             continue
@@ -144,7 +172,7 @@ def main():
         samples=V.obligations[:8], obligations=len(V.obligations), discharged=c_.get("discharged", 0), queries=cov["queries"],
         functions_encoded=["processor chiplets::aux_trace::BusColumnBuilder::{get_requests_at, get_responses_at}, build_bitwise_request, build_mem_request_word, build_mem_request_element, "
                            "compute_memory_request, build_bitwise_chiplet_responses, build_memory_chiplet_responses, get_op_label (MIR)", "miden-air MainTrace accessors (MIR)"],
-        bounds="one operation row and one chiplet row, all cells and challenges symbolic; operations U32AND, U32XOR, MLOADW, MSTOREW, MLOAD, MSTORE",
+        bounds="one operation row and one chiplet row, all cells and challenges symbolic; operations U32AND, U32XOR, MLOADW, MSTOREW, MLOAD, MSTORE, RESPAN (concrete hasher address 17, decoder row 40)",
         not_covered="multiset equality over whole traces; hasher, kernel-ROM, MSTREAM/PIPE/RCOMBBASE messages; decoder virtual tables; range-checker LogUp; the request side of the range checker (seed c03a)",
         sources_fingerprint=repo_fingerprint(["processor/src/chiplets/aux_trace", "air/src/trace/main_trace.rs"]),
         evaluations=len(V.obligations), distinct_nontrivial=c_.get("discharged", 0), rule="one obligation per (operation, chiplet row kind, path)",
@@ -157,17 +185,25 @@ BUS_PROGRAMS = {
     "U32and": "begin push.5 push.3 u32and drop end", "U32xor": "begin push.5 push.3 u32xor drop end",
     "MLoadW": "begin push.1.2.3.4 mem_storew.7 dropw padw mem_loadw.7 dropw end", "MStoreW": "begin push.1.2.3.4 mem_storew.7 dropw end",
     "MLoad": "begin push.1.2.3.4 mem_storew.3 dropw mem_load.3 drop end", "MStore": "begin push.1.2.3.4 mem_storew.3 dropw push.9 mem_store.3 end",
+    "Respan": "begin repeat.80 push.1 drop end end",
+}
+# further programs per operation: reads of addresses never written before (first access), several batches
+BUS_PROGRAMS_MORE = {
+    "MLoad": ["begin mem_load.5 drop end"], "MLoadW": ["begin padw mem_loadw.1 dropw end"],
+    "Respan": ["begin push.1.2.3.4 dropw push.1.2.3.4 dropw push.1.2.3.4 dropw push.5.6.7.8 dropw end"],
 }
 
 
 def confirm(V, name, path, op):
     """native: a program using the operation; the chiplets bus column must return to 1 at the end of the real trace"""
     import masmsym
-    nat = masmsym.native([{"kind": "trace_check", "source": BUS_PROGRAMS[op], "stack": [], "advice": [], "aux": True, "bus": True}], "c12")[0]
-    if nat.get("status") == "ok" and nat.get("bus_final") not in (None, "1"):
-        V.violation(name, path, f"{name}; native trace of `{BUS_PROGRAMS[op]}`: the chiplets bus column ends at {nat.get('bus_final')} instead of 1", key=f"bus:{op}")
-    else:
-        V.add(name, "inconclusive", detail=f"solver counterexample; native bus column: {str(nat)[:160]}")
+    progs = [BUS_PROGRAMS[op]] + BUS_PROGRAMS_MORE.get(op, [])
+    nats = masmsym.native([{"kind": "trace_check", "source": src, "stack": [], "advice": [], "aux": True} for src in progs], "c12")
+    for src, nat in zip(progs, nats):
+        if nat.get("status") == "ok" and nat.get("bus_final") not in (None, "1"):
+            V.violation(name, path, f"{name}; native trace of `{src}`: the chiplets bus column ends at {nat.get('bus_final')} instead of 1", key=f"bus:{op}")
+            return
+    V.add(name, "inconclusive", detail=f"solver counterexample; native bus column back at 1 for {progs}")
 
 
 if __name__ == "__main__":
